@@ -129,6 +129,12 @@ def run_impl(case, run):
         out['holmOracles'] = [bool(x) for x in res.oracles()]
         out['holmNb'] = [int(x) for x in res.nb_rejected]
         out['inputs_unchanged'] = all(np.array_equal(a, b, equal_nan=True) for a, b in zip(before, stub.evaluate().pvalue))
+        # the same test objects evaluated once more give the same results
+        res2 = thb.evaluate()
+        resb = tbon.evaluate()
+        out['again'] = (bool(res2) == out['holmVerdict'] and bool(resb) == out['bonfVerdict']
+                        and [[bool(x) for x in np.asarray(r).flatten()] for r in res2.rejected_null_hyp] == out['holmFlags']
+                        and [[bool(x) for x in np.asarray(r).flatten()] for r in resb.rejected_null_hyp] == out['bonf'])
     except Exception as exc:  # pylint: disable=broad-except
         out['error'] = f'{type(exc).__name__}: {exc}'[:300]
     return out
@@ -178,6 +184,9 @@ def oracle(case, impl, run):
         run.count('has_nan')
     if not impl['inputs_unchanged']:
         fails.append(('inputs_unchanged', 'p-value arrays modified'))
+    if impl.get('again') is False:
+        fails.append(('history_independent', 'a second evaluate() on the same Bonferroni / Holm-Bonferroni test object gives '
+                      'another result'))
     for k in ('bonfShapes', 'holmShapes'):
         if any(s != case['shape'] for s in impl[k]):
             fails.append(('flags_keep_shape', f'{k}: {impl[k]} vs {case["shape"]}'))
